@@ -40,7 +40,7 @@ func c13Token(q *UpQuery) string {
 }
 
 func TestVfC13Framing(t *testing.T) {
-	st := vfkit.Stats("TestVfC13Framing", "k in 1..60 pipelined queries of 17 B..4 KiB (one near-64 KiB class, one of 2^8..2^14 octets +-2) on tcp / gnet / tls listeners, byte stream cut by a drawn segmentation plan (inside the 2-octet prefix, inside bodies, several frames per segment, 1-octet segments, optional 1-3 ms pauses), per-query upstream delays (concurrent, out-of-order completion), responses of 17-60 KiB for a quarter of the queries of small batches (several of them completing together; one in four of those fills a frame up to 0-10 octets before the proxy adds the OPT of an EDNS client), max_concurrent_queries in {default,1,2,5} with gated upstream replies, in one case of three preceded by 1-6 connections that die in the middle of a frame; oracle: return stream is exactly k frames whose prefixes equal their body lengths, each body decodes, response IDs = query IDs as multisets, each answer belongs to its own query, exactly k-max REFUSED when the limit is exceeded; non-trivial = a cut inside a prefix or body with k >= 2, or the limit exceeded")
+	st := vfkit.Stats("TestVfC13Framing", "k in 1..60 pipelined queries of 17 B..4 KiB (one near-64 KiB class incl. 65533-65535 octets, one of 2^8..2^14 octets +-2) on tcp / gnet / tls listeners, byte stream cut by a drawn segmentation plan (inside the 2-octet prefix, inside bodies, several frames per segment, 1-octet segments, optional 1-3 ms pauses), per-query upstream delays (concurrent, out-of-order completion), responses of 17-60 KiB for a quarter of the queries of small batches (several of them completing together; one in four of those fills a frame up to 0-10 octets before the proxy adds the OPT of an EDNS client), max_concurrent_queries in {default,1,2,5} with gated upstream replies, in one case of three preceded by 1-6 connections that die in the middle of a frame; oracle: return stream is exactly k frames whose prefixes equal their body lengths, each body decodes, response IDs = query IDs as multisets, each answer belongs to its own query, exactly k-max REFUSED when the limit is exceeded; non-trivial = a cut inside a prefix or body with k >= 2, or the limit exceeded")
 	defer vfkit.Flush()
 	env := &c13Env{proxies: map[int]*Proxy{}, ips: map[int]string{}}
 	block := NextIPBlock()
@@ -113,7 +113,7 @@ func TestVfC13Framing(t *testing.T) {
 			wire []byte
 		}
 		qs := make([]qinfo, k)
-		bigResponses, ceiling, edgeSized := 0, 0, 0
+		bigResponses, ceiling, edgeSized, largest := 0, 0, 0, 0
 		var stream []byte
 		var bounds []int // frame start offsets
 		for i := range qs {
@@ -137,7 +137,13 @@ func TestVfC13Framing(t *testing.T) {
 				m.Ar = append(m.Ar, vfkit.RR{Type: 65280, Class: 1, RData: []vfkit.RDPart{{Raw: bytes.Repeat([]byte{8}, rapid.IntRange(1000, 4000).Draw(t, "pad"))}}})
 			default:
 				if i == 0 {
-					m.Ar = append(m.Ar, vfkit.RR{Type: 65280, Class: 1, RData: []vfkit.RDPart{{Raw: bytes.Repeat([]byte{9}, 65000)}}})
+					pad := 65000
+					if rapid.Bool().Draw(t, "largestFrames") {
+						// the largest frames there are: 65533, 65534 or 65535 octets
+						pad = 65535 - rapid.IntRange(0, 2).Draw(t, "below65535") - len(EncodeMsg(m)) - 11
+						largest++
+					}
+					m.Ar = append(m.Ar, vfkit.RR{Type: 65280, Class: 1, RData: []vfkit.RDPart{{Raw: bytes.Repeat([]byte{9}, pad)}}})
 				}
 			}
 			if k <= 12 && rapid.IntRange(0, 3).Draw(t, "bigResponse") == 0 {
@@ -361,6 +367,9 @@ func TestVfC13Framing(t *testing.T) {
 		}
 		if edgeSized > 0 {
 			classes = append(classes, "query-length-next-to-a-power-of-two")
+		}
+		if largest > 0 {
+			classes = append(classes, "query-of-65533-65535-octets")
 		}
 		if bigResponses >= 2 {
 			classes = append(classes, "concurrent-big-responses")
